@@ -54,6 +54,23 @@ def fixed_calls():
     for fmt in ("vtl", "sdmx_reporting", "natural"):
         c.append(("tpcast-" + fmt, _mk("run", 'S_1 <- cast(cast("2020Q1", time_period), string); DS_r <- DS_1[calc Me_s := cast(Id_2, string)];',
                                        TP_STRUCT, TP_DATA, time_period_output_format=fmt)))
+    # operators whose semantic validation keeps per-call scratch values on the operator *class*
+    # (found by sched.shared_names()): pairs of calls that need different values of that scratch
+    for nm, sc in (("opcls-round0", "R <- round(DS_1);"), ("opcls-round2", "R <- round(DS_1, 2);"),
+                   ("opcls-trunc0", "R <- trunc(DS_1);"), ("opcls-trunc1", "R <- trunc(DS_1, 1);"),
+                   ("opcls-join-a", 'R <- inner_join(DS_1 as a, DS_2[sub Id_2 = "2020Q1"] as b rename a#Me_1 to A1, b#Me_1 to B1, a#Me_2 to A2, b#Me_2 to B2);'),
+                   ("opcls-join-b", 'R <- inner_join(DS_1[sub Id_2 = "2020Q1"] as a, DS_2 as b rename a#Me_1 to A1, b#Me_1 to B1, a#Me_2 to A2, b#Me_2 to B2);'),
+                   ("opcls-ljoin-a", 'R <- left_join(DS_1 as a, DS_2[sub Id_2 = "2020Q1"][rename Me_1 to Me_3, Me_2 to Me_4] as b);'),
+                   ("opcls-ljoin-b", 'R <- left_join(DS_2[sub Id_2 = "2020Q1"][rename Me_1 to Me_3, Me_2 to Me_4] as b, DS_1[sub Id_2 = "2020Q1"] as a);'),
+                   ("opcls-an-num", "R <- sum(DS_1 over (partition by Id_1 order by Id_2));"),
+                   ("opcls-an-int", "R <- sum(DS_1[calc Me_1 := cast(Me_1, integer), Me_2 := cast(Me_2, integer)] over (partition by Id_1 order by Id_2));"),
+                   ("opcls-an-cnt", "R <- count(DS_1 over (partition by Id_1 order by Id_2));"),
+                   ("opcls-fts-a", "R <- fill_time_series(DS_1, all);"), ("opcls-fts-b", "R <- fill_time_series(DS_2[drop Me_2], single);"),
+                   ("opcls-agg-int", "R <- sum(DS_1[calc Me_1 := cast(Me_1, integer), Me_2 := cast(Me_2, integer)] group by Id_1);"),
+                   ("opcls-agg-num", "R <- avg(DS_1 group by Id_1);")):
+        c.append((nm + "-sem", _mk("semantic_analysis", sc, TP_STRUCT)))
+        if "fts" not in nm:
+            c.append((nm + "-run", _mk("run", sc, TP_STRUCT, TP_DATA)))
     c.append(("virt-if", _mk("run", "A <- if DS_1#Me_1 > 5 then DS_1 else DS_2; B <- nvl(DS_1[keep Me_1], 0) + DS_2[keep Me_1];", TP_STRUCT, TP_DATA)))
     c.append(("virt-join", _mk("run", "C <- inner_join(DS_1 as d1, DS_2 as d2 rename d1#Me_1 to M1, d2#Me_1 to M2, d1#Me_2 to N1, d2#Me_2 to N2);", TP_STRUCT, TP_DATA)))
     c.append(("virt-check", _mk("run", "D <- check(DS_1#Me_1 > DS_2#Me_1 errorcode \"e\" errorlevel 1 imbalance DS_1#Me_1 - DS_2#Me_1);", TP_STRUCT, TP_DATA)))
@@ -74,6 +91,7 @@ def make_scenario(rng, corpus_ids=None, gen_pool=None):
     n_threads = rng.choice([2, 2, 2, 3])
     mode = rng.random()
     threads = []
+    opfam = None
     for t in range(n_threads):
         n_calls = rng.choice([1, 1, 2, 3])
         calls = []
@@ -86,6 +104,13 @@ def make_scenario(rng, corpus_ids=None, gen_pool=None):
             elif mode < 0.5:
                 # calls whose outcome embeds virtual names / the statement's output dataset
                 pool = [x for x in fc if x[0].startswith(("sem-", "virt-", "div0"))]
+                name, op = rng.choice(pool)
+            elif mode < 0.65:
+                # calls that contend for the same operator class's scratch attributes
+                if opfam is None:
+                    opfam = rng.choice(["round", "trunc", "join", "ljoin", "an-", "fts", "agg"])
+                fam = opfam
+                pool = [x for x in fc if x[0].startswith("opcls-" + fam)]
                 name, op = rng.choice(pool)
             elif r < 0.55:
                 name, op = rng.choice(fc)
